@@ -170,7 +170,6 @@ pub fn gen_case(args: &Args, rng: &mut Rng) -> Case {
     let mut feat = feat_for(args, rng);
     // signal state lives in self/mem/delay reachable from dsp; globals are constant after main
     feat.escaping_closures = false;
-    feat.avoid.push("samplerate-in-global-init".into());
     let prog = generate(rng, feat);
     let src = prog.print();
     Case {
